@@ -424,7 +424,7 @@ def replay_sequence(inputs):
     from verif.native.synth import hopping_system
     seed = inputs['seed']
     rng = np.random.default_rng(seed)
-    traj, sites, info = hopping_system(seed, n_frames=int(inputs.get('n_frames', 17)), n_diff=2, n_frame_atoms=2, vib=0.04, hop_prob=0.05)
+    traj, sites, info = hopping_system(seed, n_frames=int(inputs.get('n_frames', 17)), n_diff=2, n_frame_atoms=2, vib=0.04, hop_prob=0.05, interleave=bool(seed % 2))
     view = traj.positions.copy()
     symbols = [s.symbol for s in traj.species]
     lat = traj.get_lattice().matrix.copy()
@@ -475,13 +475,19 @@ def replay_sequence(inputs):
             elif op == 'msd':
                 cur.mean_squared_displacement()
             elif op == 'filter':
-                sym = str(rng.choice(sorted(set(csyms))))
+                kinds = sorted(set(csyms))
+                if len(kinds) >= 2 and rng.random() < 0.5:
+                    sym = [str(x) for x in rng.choice(kinds, size=2, replace=False)]  # a selection of several species: atoms keep their source order
+                    sel = set(sym)
+                else:
+                    sym = str(rng.choice(kinds))
+                    sel = {sym}
                 new = cur.filter(sym)
-                mask = np.array([s == sym for s in csyms])
-                check(new, cview[:, mask], [s for s in csyms if s == sym], f'filter({sym}) result')
+                mask = np.array([s in sel for s in csyms])
+                check(new, cview[:, mask], [s for s in csyms if s in sel], f'filter({sym}) result')
                 check(cur, cview, csyms, f'filter({sym}) source')
                 if rng.random() < 0.5:
-                    cur, cview, csyms = new, cview[:, mask], [s for s in csyms if s == sym]
+                    cur, cview, csyms = new, cview[:, mask], [s for s in csyms if s in sel]
             elif op in ('slice', 'slice_step'):
                 T = len(cur)
                 a_, b_ = sorted(int(v) for v in rng.integers(0, T + 1, size=2))
